@@ -603,3 +603,567 @@ Proof.
   apply IH; [apply fs_remove_wf; exact Hw1|]. rewrite fs_remove_rows.
   assert (0 < length pg)%nat by (rewrite Epg; cbn; lia). lia.
 Qed.
+
+(* ================================================================ the writes: row change, then _cull *)
+Definition stamped (now : Z) (r : row) : Prop := store_time r = now /\ access_time r = now /\ access_count r = 0.
+
+(* the row change of a write, before _cull: `sel` is what the SELECT for the key returned *)
+Definition write_rows (now : Z) (sel : list row) (dbk : sqlval) (raw : bool) (t t2 : list row) : Prop :=
+  match sel with
+  | [] => exists r, t2 = t ++ [r] /\ rowid r = next_rowid t /\ rkey r = dbk /\ rraw r = raw /\ stamped now r
+  | r0 :: _ => exists f, t2 = map (fun r => if rowid r =? rowid r0 then f r else r) t /\
+                         forall r, rowid (f r) = rowid r /\ rkey (f r) = rkey r /\ rraw (f r) = rraw r /\ stamped now (f r)
+  end.
+
+(* Settings.size follows the rows (triggers) *)
+Definition size_tracks (s s2 : st) : Prop :=
+  n_size s2 - sumZ (map rsize (rows s2)) = n_size s - sumZ (map rsize (rows s)).
+
+Lemma sumZ_app a b : sumZ (a ++ b) = sumZ a + sumZ b.
+Proof. induction a as [|x a IH]; cbn; [reflexivity|]. rewrite IH. lia. Qed.
+
+Lemma insert_write dbk raw now exp tag sd fid s :
+  let s2 := t_insert (columns_insert dbk raw now exp tag sd fid) s in
+  write_rows now [] dbk raw (rows s) (rows s2) /\ size_tracks s s2.
+Proof.
+  cbn zeta. split.
+  - cbn [write_rows]. eexists. split; [apply t_insert_rows|]. unfold columns_insert.
+    destruct (bridge_row_insert dbk raw now exp now 0 tag (s_size sd) (s_mode sd) fid (s_col sd) (next_rowid (rows s)))
+      as (H1 & H2 & H3 & H4 & H5 & H6 & H7 & H8).
+    unfold stamped. tauto.
+  - unfold size_tracks. rewrite t_insert_size, t_insert_rows, map_app, sumZ_app. cbn. lia.
+Qed.
+
+Lemma update_write r0 l dbk raw now exp tag sd fid s :
+  let s2 := columns_update (rowid r0) now exp tag sd fid s in
+  write_rows now (r0 :: l) dbk raw (rows s) (rows s2) /\ size_tracks s s2.
+Proof.
+  cbn zeta. unfold columns_update. split.
+  - cbn [write_rows]. exists (row_update_set now exp now 0 tag (s_size sd) (s_mode sd) fid (s_col sd) (rowid r0)). split.
+    + rewrite t_update_rows. apply map_ext. intros r. rewrite bridge_row_update_where. reflexivity.
+    + intros r.
+      destruct (bridge_row_update_set now exp now 0 tag (s_size sd) (s_mode sd) fid (s_col sd) (rowid r0) r)
+        as (H1 & H2 & H3 & H4 & H5 & H6 & H7 & H8).
+      unfold stamped. tauto.
+  - unfold size_tracks. rewrite t_update_size. lia.
+Qed.
+
+Lemma fs_write_rows s x s1 fid : fs_write s x = (s1, fid) -> rows s1 = rows s /\ n_size s1 = n_size s.
+Proof. unfold fs_write. destruct x; intros H; injection H as <- <-; split; reflexivity. Qed.
+
+(* shape shared by the stored branch of every write *)
+Definition stored_then_cull (c : cfg) (now pg : Z) (sel : list row) (dbk : sqlval) (raw : bool) (s s' : st) : Prop :=
+  exists s2, write_rows now sel dbk raw (rows s) (rows s2) /\ size_tracks s s2
+             /\ rows s' = rows (fst (cull c now pg s2)) /\ n_size s' = n_size (fst (cull c now pg s2)).
+
+Lemma fs_remove1_rows s o : rows (fs_remove1 s o) = rows s.
+Proof. destruct o; reflexivity. Qed.
+Lemma fs_remove1_size s o : n_size (fs_remove1 s o) = n_size s.
+Proof. destruct o; reflexivity. Qed.
+
+Lemma stored_intro c now pg sel dbk raw s s1 s2 s3 cl s' :
+  rows s1 = rows s -> n_size s1 = n_size s ->
+  write_rows now sel dbk raw (rows s1) (rows s2) /\ size_tracks s1 s2 ->
+  cull c now pg s2 = (s3, cl) -> rows s' = rows s3 -> n_size s' = n_size s3 ->
+  stored_then_cull c now pg sel dbk raw s s'.
+Proof.
+  intros R N [W T] C R' N'. exists s2. rewrite <- R. unfold size_tracks in *. rewrite <- R, <- N.
+  rewrite C. cbn [fst]. tauto.
+Qed.
+
+Ltac fs_done := rewrite ?fs_remove_rows, ?fs_remove_size, ?fs_remove1_rows, ?fs_remove1_size; reflexivity.
+
+Theorem op_set_decompose c s k v read e tag now pg s' res :
+  op_set c s k v read e tag now pg = (s', res) ->
+  (s' = s /\ res <> RBool true)
+  \/ exists dbk raw, put (c_codec c) k = PutOk dbk raw /\ res = RBool true
+       /\ stored_then_cull c now pg (set_select dbk (b2z raw) (rows s)) dbk raw s s'.
+Proof.
+  unfold op_set. destruct (put (c_codec c) k) as [dbk raw|] eqn:Ep;
+    [|intros H; injection H as <- <-; left; split; [reflexivity|discriminate]].
+  destruct (store (c_codec c) (c_min_file_size c) v read) as [sd|] eqn:Es;
+    [|intros H; injection H as <- <-; left; split; [reflexivity|discriminate]].
+  destruct (fs_write s (s_file sd)) as [s1 fid] eqn:Ef. destruct (fs_write_rows _ _ _ _ Ef) as [R N].
+  rewrite R. destruct (set_select dbk (b2z raw) (rows s)) as [|r0 l] eqn:Esel.
+  - destruct (cull c now pg (t_insert (columns_insert dbk raw now (expire_at now e) tag sd fid) s1)) as [s3 cl2] eqn:Ec.
+    intros H; injection H as <- <-. right. exists dbk, raw. rewrite Esel. repeat split; auto.
+    eapply stored_intro with (s1 := s1) (s3 := s3); eauto; [apply insert_write|fs_done|fs_done].
+  - destruct (cull c now pg (columns_update (rowid r0) now (expire_at now e) tag sd fid s1)) as [s3 cl2] eqn:Ec.
+    intros H; injection H as <- <-. right. exists dbk, raw. rewrite Esel. repeat split; auto.
+    eapply stored_intro with (s1 := s1) (s3 := s3); eauto; [apply update_write|fs_done|fs_done].
+Qed.
+
+Theorem op_add_decompose c s k v read e tag now pg s' res :
+  op_add c s k v read e tag now pg = (s', res) ->
+  (rows s' = rows s /\ n_size s' = n_size s /\ res <> RBool true)
+  \/ exists dbk raw, put (c_codec c) k = PutOk dbk raw /\ res = RBool true
+       /\ stored_then_cull c now pg (add_select dbk (b2z raw) (rows s)) dbk raw s s'.
+Proof.
+  unfold op_add. destruct (put (c_codec c) k) as [dbk raw|] eqn:Ep;
+    [|intros H; injection H as <- <-; left; repeat split; discriminate].
+  destruct (store (c_codec c) (c_min_file_size c) v read) as [sd|] eqn:Es;
+    [|intros H; injection H as <- <-; left; repeat split; discriminate].
+  destruct (fs_write s (s_file sd)) as [s1 fid] eqn:Ef. destruct (fs_write_rows _ _ _ _ Ef) as [R N].
+  rewrite R. destruct (add_select dbk (b2z raw) (rows s)) as [|r0 l] eqn:Esel.
+  - destruct (cull c now pg (t_insert (columns_insert dbk raw now (expire_at now e) tag sd fid) s1)) as [s3 cl2] eqn:Ec.
+    intros H; injection H as <- <-. right. exists dbk, raw. rewrite Esel. repeat split; auto.
+    eapply stored_intro with (s1 := s1) (s3 := s3); eauto; [apply insert_write|fs_done|fs_done].
+  - destruct (add_live (expire_time r0) now).
+    + intros H; injection H as <- <-. left. rewrite ?fs_remove_rows, ?fs_remove_size, ?fs_remove1_rows, ?fs_remove1_size. repeat split; auto. discriminate.
+    + destruct (cull c now pg (columns_update (rowid r0) now (expire_at now e) tag sd fid s1)) as [s3 cl2] eqn:Ec.
+      intros H; injection H as <- <-. right. exists dbk, raw. rewrite Esel. repeat split; auto.
+      eapply stored_intro with (s1 := s1) (s3 := s3); eauto; [apply update_write|fs_done|fs_done].
+Qed.
+
+Theorem op_push_decompose c s v read prefix sd_ e tag now pg s' res :
+  op_push c s v read prefix sd_ e tag now pg = (s', res) ->
+  (s' = s /\ res = RRaise EStore)
+  \/ exists dbk, res = RKey dbk /\ stored_then_cull c now pg [] dbk true s s'.
+Proof.
+  unfold op_push. destruct (store (c_codec c) (c_min_file_size c) v read) as [sd|] eqn:Es;
+    [|intros H; injection H as <- <-; left; split; reflexivity].
+  destruct (fs_write s (s_file sd)) as [s1 fid] eqn:Ef. destruct (fs_write_rows _ _ _ _ Ef) as [R N].
+  cbn zeta.
+  match goal with |- context [t_insert (columns_insert ?k true now ?x tag sd fid) s1] =>
+    set (dbk := k); destruct (cull c now pg (t_insert (columns_insert dbk true now x tag sd fid) s1)) as [s3 cl2] eqn:Ec end.
+  intros H; injection H as <- <-. right. exists dbk. split; [reflexivity|].
+  eapply stored_intro with (s1 := s1) (s3 := s3); eauto; [apply insert_write|fs_done|fs_done].
+Qed.
+
+(* incr: a missing or expired counter is (re)created like a set; a live one is refreshed in place, without _cull *)
+Theorem op_incr_decompose c s k delta default now pg s' res :
+  op_incr c s k delta default now pg = (s', res) ->
+  (s' = s /\ exists e, res = RRaise e)
+  \/ (exists dbk raw, put (c_codec c) k = PutOk dbk raw
+        /\ match incr_select dbk (b2z raw) (rows s) with
+           | [] => True
+           | r0 :: _ => incr_expired (expire_time r0) now = true
+           end
+        /\ stored_then_cull c now pg (incr_select dbk (b2z raw) (rows s)) dbk raw s s')
+  \/ (exists dbk raw r0 l z, put (c_codec c) k = PutOk dbk raw
+        /\ incr_select dbk (b2z raw) (rows s) = r0 :: l /\ incr_expired (expire_time r0) now = false
+        /\ rows s' = map (fun r => if rowid r =? rowid r0 then incr_refresh (c_policy c) now (SInt z) r else r) (rows s)).
+Proof.
+  unfold op_incr. destruct (put (c_codec c) k) as [dbk raw|] eqn:Ep;
+    [|intros H; injection H as <- <-; left; split; [reflexivity|eexists; reflexivity]].
+  cbn zeta.
+  destruct (incr_select dbk (b2z raw) (rows s)) as [|r0 l] eqn:Esel.
+  - destruct default as [d|]; [|intros H; injection H as <- <-; left; split; [reflexivity|eexists; reflexivity]].
+    destruct (store (c_codec c) (c_min_file_size c) (VInt (d + delta)) false) as [sd|] eqn:Es;
+      [|intros H; injection H as <- <-; left; split; [reflexivity|eexists; reflexivity]].
+    destruct (fs_write s (s_file sd)) as [s1 fid] eqn:Ef. destruct (fs_write_rows _ _ _ _ Ef) as [R N].
+    destruct (cull c now pg (t_insert (columns_insert dbk raw now None SNull sd fid) s1)) as [s3 cl2] eqn:Ec.
+    intros H; injection H as <- <-. right. left. exists dbk, raw. rewrite Esel. repeat split; auto.
+    eapply stored_intro with (s1 := s1) (s3 := s3); eauto; [apply insert_write|fs_done|fs_done].
+  - destruct (incr_expired (expire_time r0) now) eqn:Ex.
+    + destruct default as [d|]; [|intros H; injection H as <- <-; left; split; [reflexivity|eexists; reflexivity]].
+      destruct (store (c_codec c) (c_min_file_size c) (VInt (d + delta)) false) as [sd|] eqn:Es;
+        [|intros H; injection H as <- <-; left; split; [reflexivity|eexists; reflexivity]].
+      destruct (fs_write s (s_file sd)) as [s1 fid] eqn:Ef. destruct (fs_write_rows _ _ _ _ Ef) as [R N].
+      destruct (cull c now pg (columns_update (rowid r0) now None SNull sd fid s1)) as [s3 cl2] eqn:Ec.
+      intros H; injection H as <- <-. right. left. exists dbk, raw. rewrite Esel. repeat split; auto.
+      eapply stored_intro with (s1 := s1) (s3 := s3); eauto; [apply update_write|fs_done|fs_done].
+    + destruct (rvalue r0) as [|z| | |]; try (intros H; injection H as <- <-; left; split; [reflexivity|eexists; reflexivity]).
+      destruct (in_int64 (z + delta)); [|intros H; injection H as <- <-; left; split; [reflexivity|eexists; reflexivity]].
+      intros H; injection H as <- <-. right. right. exists dbk, raw, r0, l, (z + delta). repeat split; auto.
+      rewrite t_update_rows. apply map_ext. intros r. rewrite bridge_incr_update. destruct (rowid r =? rowid r0); reflexivity.
+Qed.
+
+(* get: a hit refreshes the policy column of that row only; nothing is ever removed *)
+Theorem op_get_rows c s k read now s' res :
+  op_get c s k read now = (s', res) ->
+  match res with
+  | RVal _ _ _ =>
+      exists dbk raw r0 l, put (c_codec c) k = PutOk dbk raw /\ get_select dbk (b2z raw) now (rows s) = r0 :: l
+        /\ rows s' = map (fun r => if rowid r =? rowid r0 then get_refresh (c_policy c) now r else r) (rows s)
+  | _ => rows s' = rows s
+  end.
+Proof.
+  unfold op_get. destruct (put (c_codec c) k) as [dbk raw|] eqn:Ep; [|intros H; injection H as <- <-; reflexivity].
+  assert (Hbump : forall b, rows (bump s b) = rows s).
+  { intros b. unfold bump. destruct (statistics s); [destruct b|]; reflexivity. }
+  rewrite bridge_policy_has_get.
+  destruct (get_select dbk (b2z raw) now (rows s)) as [|r0 l] eqn:Esel.
+  - destruct (get_fast_path _ _); intros H; injection H as <- <-; [reflexivity|apply Hbump].
+  - destruct (get_fast_path _ _) eqn:Efast.
+    + assert (Hp : get_refresh (c_policy c) now = fun r => r).
+      { unfold get_fast_path in Efast. destruct (c_policy c); cbn in Efast; try reflexivity;
+          rewrite andb_false_r in Efast; discriminate. }
+      destruct (fetch_row c s r0 read) eqn:Ef; intros H; injection H as <- <-; try reflexivity;
+        exists dbk, raw, r0, l; repeat split; auto; rewrite Hp;
+        symmetry; rewrite <- (map_id (rows s)) at 2; apply map_ext; intros r; destruct (rowid r =? rowid r0); reflexivity.
+    + destruct (fetch_row c s r0 read) eqn:Ef; intros H; injection H as <- <-; try apply Hbump;
+        exists dbk, raw, r0, l; repeat split; auto;
+        (destruct (c_policy c) eqn:Epol; cbn [get_refresh];
+         [ rewrite Hbump; symmetry; rewrite <- (map_id (rows s)) at 2; apply map_ext; intros r; destruct (rowid r =? rowid r0); reflexivity
+         | rewrite Hbump; symmetry; rewrite <- (map_id (rows s)) at 2; apply map_ext; intros r; destruct (rowid r =? rowid r0); reflexivity
+         | rewrite t_update_rows, Hbump; apply map_ext; intros r; rewrite bridge_policy_get_update; destruct (rowid r =? rowid r0); reflexivity
+         | rewrite t_update_rows, Hbump; apply map_ext; intros r; rewrite bridge_policy_get_update; destruct (rowid r =? rowid r0); reflexivity ]).
+Qed.
+
+(* ================================================================ wf is an invariant of every API call *)
+Lemma wf_rows_eq s s' : rows s' = rows s -> wf s -> wf s'.
+Proof. unfold wf. intros ->. tauto. Qed.
+
+Lemma max_opt_ge l x : In x l -> exists m, max_opt l = Some m /\ x <= m.
+Proof.
+  induction l as [|a l IH]; cbn; [tauto|]. intros [->|H].
+  - destruct (max_opt l); eexists; split; eauto; lia.
+  - destruct (IH H) as (m & -> & L). eexists; split; eauto; lia.
+Qed.
+
+Lemma next_rowid_fresh t : ~ In (next_rowid t) (map rowid t).
+Proof.
+  unfold next_rowid. intros H. destruct (max_opt_ge _ _ H) as (m & E & L). rewrite E in L. lia.
+Qed.
+
+Lemma wf_write_rows now sel dbk raw t t2 :
+  NoDup (map rowid t) -> write_rows now sel dbk raw t t2 -> NoDup (map rowid t2).
+Proof.
+  intros Hn. destruct sel as [|r0 l]; cbn [write_rows].
+  - intros (r & -> & Hid & _). rewrite map_app. cbn [map].
+    eapply Permutation_NoDup; [apply Permutation_cons_append|]. constructor; [|exact Hn].
+    rewrite Hid. apply next_rowid_fresh.
+  - intros (f & -> & Hf). rewrite map_map.
+    erewrite map_ext; [exact Hn|]. intros r. cbn. destruct (rowid r =? rowid r0); [apply Hf|reflexivity].
+Qed.
+
+Lemma wf_cull c now pg s : wf s -> wf (fst (cull c now pg s)).
+Proof.
+  intros H. rewrite cull_state. destruct (c_cull_limit c =? 0); [exact H|].
+  destruct (policy_runs c now pg s); [apply wf_t_delete|]; apply wf_stage1; exact H.
+Qed.
+
+Lemma wf_stored c now pg sel dbk raw s s' : wf s -> stored_then_cull c now pg sel dbk raw s s' -> wf s'.
+Proof.
+  intros Hw (s2 & W & _ & R & _). unfold wf. rewrite R. apply wf_cull. unfold wf. eapply wf_write_rows; eauto.
+Qed.
+
+Lemma wf_t_update wh f s : (forall r, rowid (f r) = rowid r) -> wf s -> wf (t_update wh f s).
+Proof.
+  intros Hf. unfold wf. rewrite t_update_rows, map_map. intros H.
+  erewrite map_ext; [exact H|]. intros r. cbn. destruct (wh r); [apply Hf|reflexivity].
+Qed.
+
+Lemma wf_bump s b : wf s -> wf (bump s b).
+Proof. apply wf_rows_eq. unfold bump. destruct (statistics s); [destruct b|]; reflexivity. Qed.
+
+Lemma wf_select_delete sel next : forall fuel b s cnt, wf s -> wf (fst (select_delete fuel sel next b s cnt)).
+Proof.
+  induction fuel as [|f IH]; intros b s cnt Hw; cbn [select_delete]; [exact Hw|].
+  destruct (sel b (rows s)) as [|x pg]; [exact Hw|]. apply IH. apply fs_remove_wf, wf_t_delete. exact Hw.
+Qed.
+
+Lemma wf_cull_loop c : forall fuel vols s cnt, wf s -> wf (fst (cull_loop fuel c vols s cnt)).
+Proof.
+  induction fuel as [|f IH]; intros vols s cnt Hw; cbn [cull_loop]; [exact Hw|].
+  destruct (cull_over_limit _ _); [|exact Hw].
+  destruct (policy_cull_select (c_policy c) cull_page (rows s)) as [|x pg]; [exact Hw|].
+  apply IH. apply fs_remove_wf, wf_t_delete. exact Hw.
+Qed.
+
+Lemma wf_pull_loop c prefix sd_ now : forall fuel s, wf s -> wf (fst (op_pull_loop fuel c s prefix sd_ now)).
+Proof.
+  induction fuel as [|f IH]; intros s Hw; cbn [op_pull_loop]; [exact Hw|].
+  destruct (pull_select sd_ prefix (rows s)) as [|r0 l]; [exact Hw|].
+  destruct (pull_expired (expire_time r0) now); [apply IH, fs_remove_wf, wf_t_delete; exact Hw|].
+  destruct (fetch_row _ _ _ _); try (apply fs_remove_wf, wf_t_delete; exact Hw).
+  apply IH, fs_remove_wf, wf_t_delete; exact Hw.
+Qed.
+
+Lemma wf_peek_loop c prefix sd_ now : forall fuel s, wf s -> wf (fst (op_peek_loop fuel c s prefix sd_ now)).
+Proof.
+  induction fuel as [|f IH]; intros s Hw; cbn [op_peek_loop]; [exact Hw|].
+  destruct (peek_select sd_ prefix (rows s)) as [|r0 l]; [exact Hw|].
+  destruct (peek_expired (expire_time r0) now); [apply IH, fs_remove_wf, wf_t_delete; exact Hw|].
+  destruct (fetch_row _ _ _ _); exact Hw.
+Qed.
+
+Lemma wf_peekitem_loop c last now : forall fuel s, wf s -> wf (fst (op_peekitem_loop fuel c s last now)).
+Proof.
+  induction fuel as [|f IH]; intros s Hw; cbn [op_peekitem_loop]; [exact Hw|].
+  destruct (if last then peekitem_select_last (rows s) else peekitem_select_first (rows s)) as [|r0 l]; [exact Hw|].
+  destruct (peekitem_expired (expire_time r0) now); [apply IH, fs_remove_wf, wf_t_delete; exact Hw|].
+  destruct (fetch_row _ _ _ _); exact Hw.
+Qed.
+
+Lemma wf_init : wf init_st.
+Proof. constructor. Qed.
+
+Theorem wf_step c s o now vols : wf s -> wf (fst (step c s o now vols)).
+Proof.
+  intros Hw. destruct o; cbn [step].
+  - destruct (op_set c s k v read expire tag now (hd_vol vols)) as [s' res] eqn:E. cbn [fst].
+    destruct (op_set_decompose _ _ _ _ _ _ _ _ _ _ _ E) as [[-> _]|(dbk & raw & _ & _ & H)]; [exact Hw|].
+    eapply wf_stored; eauto.
+  - destruct (op_add c s k v read expire tag now (hd_vol vols)) as [s' res] eqn:E. cbn [fst].
+    destruct (op_add_decompose _ _ _ _ _ _ _ _ _ _ _ E) as [(R & _ & _)|(dbk & raw & _ & _ & H)].
+    + eapply wf_rows_eq; eauto.
+    + eapply wf_stored; eauto.
+  - unfold op_touch. destruct (put (c_codec c) k) as [dbk raw|]; [|exact Hw].
+    destruct (touch_select dbk (b2z raw) (rows s)) as [|r0 l]; [exact Hw|].
+    destruct (touch_live (expire_time r0) now); [|exact Hw]. cbn [fst]. apply wf_t_update; auto.
+  - destruct (op_incr c s k delta default now (hd_vol vols)) as [s' res] eqn:E. cbn [fst].
+    destruct (op_incr_decompose _ _ _ _ _ _ _ _ _ E) as [[-> _]|[(dbk & raw & _ & _ & H)|(dbk & raw & r0 & l & z & _ & _ & _ & R)]].
+    + exact Hw.
+    + eapply wf_stored; eauto.
+    + unfold wf. rewrite R, map_map. erewrite map_ext; [exact Hw|].
+      intros r. cbn. destruct (rowid r =? rowid r0); reflexivity.
+  - destruct (op_get c s k read now) as [s' res] eqn:E. cbn [fst].
+    pose proof (op_get_rows _ _ _ _ _ _ _ E) as H.
+    destruct res; try (eapply wf_rows_eq; eauto).
+    destruct H as (dbk & raw & r0 & l & _ & _ & R). unfold wf. rewrite R, map_map. erewrite map_ext; [exact Hw|].
+    intros r. cbn. destruct (rowid r =? rowid r0); [|reflexivity]. destruct (c_policy c); reflexivity.
+  - unfold op_contains. destruct (put (c_codec c) k); exact Hw.
+  - unfold op_pop. destruct (put (c_codec c) k) as [dbk raw|]; [|exact Hw].
+    destruct (pop_select dbk (b2z raw) now (rows s)) as [|r0 l]; [exact Hw|].
+    destruct (fetch_row _ _ _ _); cbn [fst]; apply fs_remove_wf, wf_t_delete; exact Hw.
+  - unfold op_delete. destruct (put (c_codec c) k) as [dbk raw|]; [|exact Hw].
+    destruct (del_select dbk (b2z raw) now (rows s)) as [|r0 l]; [exact Hw|].
+    cbn [fst]. apply fs_remove_wf, wf_t_delete; exact Hw.
+  - destruct (op_push c s v read prefix sd expire tag now (hd_vol vols)) as [s' res] eqn:E. cbn [fst].
+    destruct (op_push_decompose _ _ _ _ _ _ _ _ _ _ _ _ E) as [[-> _]|(dbk & _ & H)]; [exact Hw|].
+    eapply wf_stored; eauto.
+  - apply wf_pull_loop; exact Hw.
+  - apply wf_peek_loop; exact Hw.
+  - apply wf_peekitem_loop; exact Hw.
+  - apply wf_select_delete; exact Hw.
+  - apply wf_select_delete; exact Hw.
+  - unfold op_cull. pose proof (wf_select_delete (fun b t => expire_select b now expire_page t)
+                                  (fun r => time_or_zero (expire_time r)) (S (length (rows s))) 0 s 0 Hw) as H1.
+    fold (op_expire s now) in H1. destruct (op_expire s now) as [s1 r1]. cbn [fst] in H1.
+    destruct r1; try exact H1. destruct (policy_has_cull (c_policy c)); [apply wf_cull_loop|]; exact H1.
+  - apply wf_select_delete; exact Hw.
+  - exact Hw.
+  - unfold op_iter. destruct (iter_max (rows s)); exact Hw.
+  - unfold op_iterkeys. destruct (if rev then _ else _); exact Hw.
+  - exact Hw.
+Qed.
+
+(* every state reachable from the empty cache is well formed *)
+Fixpoint run_ops (c : cfg) (s : st) (l : list (op * Z * list Z)) : st :=
+  match l with
+  | [] => s
+  | (o, now, vols) :: r => run_ops c (fst (step c s o now vols)) r
+  end.
+
+Theorem wf_reachable c l : wf (run_ops c init_st l).
+Proof.
+  assert (G : forall s, wf s -> wf (run_ops c s l)).
+  { induction l as [|[[o now] vols] l IH]; intros s Hw; cbn [run_ops]; [exact Hw|]. apply IH, wf_step, Hw. }
+  apply G, wf_init.
+Qed.
+
+(* ================================================================ the _cull theorems lifted to set / add / incr / push *)
+Definition is_write (o : op) : bool :=
+  match o with OSet _ _ _ _ _ | OAdd _ _ _ _ _ | OIncr _ _ _ | OPush _ _ _ _ _ _ => true | _ => false end.
+
+(* every eviction theorem holds for the _cull at the end of a stored write, on the table as the write left it *)
+Theorem stored_evicts c now pg sel dbk raw s s' :
+  wf s -> stored_then_cull c now pg sel dbk raw s s' ->
+  exists s2,
+    write_rows now sel dbk raw (rows s) (rows s2) /\ size_tracks s s2 /\ wf s2
+    /\ (forall r, In r (rows s') -> In r (rows s2))
+    /\ (0 <= c_cull_limit c -> Z.of_nat (length (rows s2)) - Z.of_nat (length (rows s')) <= c_cull_limit c)
+    /\ (c_cull_limit c = 0 -> rows s' = rows s2)
+    /\ (forall r, In r (rows s2) -> ~ In r (rows s') -> passed now r = false ->
+          c_size_limit c <= volume pg (stage1 c now s2) /\ c_policy c <> PNone /\ c_cull_limit c <> 0
+          /\ forall r', In r' (rows s') -> policy_key (c_policy c) r <= policy_key (c_policy c) r')
+    /\ (c_policy c = PNone -> forall r, In r (rows s2) -> ~ In r (rows s') -> passed now r = true).
+Proof.
+  intros Hw (s2 & W & T & R & N). exists s2.
+  assert (Hw2 : wf s2) by (unfold wf; eapply wf_write_rows; eauto).
+  rewrite R. repeat split; auto.
+  - apply cull_sub.
+  - intros H. apply cull_bound; auto.
+  - intros H. rewrite cull_zero by exact H. reflexivity.
+  - eapply cull_only_at_limit; eauto. split; eauto.
+  - intros E. destruct (cull_only_at_limit c now pg s2 r Hw2 (conj H H0) H1) as (_ & H2 & _). tauto.
+  - destruct (cull_only_at_limit c now pg s2 r Hw2 (conj H H0) H1) as (_ & _ & H2). exact H2.
+  - intros r' Hr'. eapply cull_order; eauto. split; eauto.
+  - intros E r Hr Hn. eapply cull_none_never; eauto. split; eauto.
+Qed.
+
+(* One write removes at most cull_limit rows (none when it is zero): t2 is the table after the row change of the
+   write itself (nothing / insert / update in place / incr refresh); what the call leaves is t2 minus at most
+   cull_limit rows. *)
+Theorem write_bound c s o now vols s' res :
+  wf s -> 0 <= c_cull_limit c -> is_write o = true -> step c s o now vols = (s', res) ->
+  exists t2,
+    (t2 = rows s
+     \/ (exists sel dbk raw, write_rows now sel dbk raw (rows s) t2)
+     \/ (exists r0 v, t2 = map (fun r => if rowid r =? rowid r0 then incr_refresh (c_policy c) now v r else r) (rows s)))
+    /\ (length (rows s) <= length t2)%nat
+    /\ (forall r, In r (rows s') -> In r t2)
+    /\ Z.of_nat (length t2) - Z.of_nat (length (rows s')) <= c_cull_limit c
+    /\ (c_cull_limit c = 0 -> rows s' = t2).
+Proof.
+  intros Hw Hl Ho H.
+  assert (Same : rows s' = rows s -> exists t2,
+    (t2 = rows s
+     \/ (exists sel dbk raw, write_rows now sel dbk raw (rows s) t2)
+     \/ (exists r0 v, t2 = map (fun r => if rowid r =? rowid r0 then incr_refresh (c_policy c) now v r else r) (rows s)))
+    /\ (length (rows s) <= length t2)%nat
+    /\ (forall r, In r (rows s') -> In r t2)
+    /\ Z.of_nat (length t2) - Z.of_nat (length (rows s')) <= c_cull_limit c
+    /\ (c_cull_limit c = 0 -> rows s' = t2)).
+  { intros R. exists (rows s). rewrite R. repeat split; auto; lia. }
+  assert (Stored : forall sel dbk raw, stored_then_cull c now (hd_vol vols) sel dbk raw s s' -> exists t2,
+    (t2 = rows s
+     \/ (exists sel dbk raw, write_rows now sel dbk raw (rows s) t2)
+     \/ (exists r0 v, t2 = map (fun r => if rowid r =? rowid r0 then incr_refresh (c_policy c) now v r else r) (rows s)))
+    /\ (length (rows s) <= length t2)%nat
+    /\ (forall r, In r (rows s') -> In r t2)
+    /\ Z.of_nat (length t2) - Z.of_nat (length (rows s')) <= c_cull_limit c
+    /\ (c_cull_limit c = 0 -> rows s' = t2)).
+  { intros sel dbk raw St. destruct (stored_evicts _ _ _ _ _ _ _ _ Hw St) as (s2 & W & _ & _ & Hsub & Hb & Hz & _).
+    exists (rows s2). split; [right; left; eauto|]. split; [|auto].
+    destruct sel as [|r0 l]; cbn [write_rows] in W.
+    - destruct W as (r & -> & _). rewrite app_length. lia.
+    - destruct W as (f & -> & _). rewrite map_length. lia. }
+  destruct o; try discriminate; cbn [step] in H.
+  - destruct (op_set_decompose _ _ _ _ _ _ _ _ _ _ _ H) as [[-> _]|(dbk & raw & _ & _ & St)]; eauto.
+  - destruct (op_add_decompose _ _ _ _ _ _ _ _ _ _ _ H) as [(R & _ & _)|(dbk & raw & _ & _ & St)]; eauto.
+  - destruct (op_incr_decompose _ _ _ _ _ _ _ _ _ H)
+      as [[-> _]|[(dbk & raw & _ & _ & St)|(dbk & raw & r0 & l & z & _ & _ & _ & R)]]; eauto.
+    exists (rows s'). rewrite R at 1. split; [right; right; eauto|]. rewrite R, map_length.
+    repeat split; auto; lia.
+  - destruct (op_push_decompose _ _ _ _ _ _ _ _ _ _ _ _ H) as [[-> _]|(dbk & _ & St)]; eauto.
+Qed.
+
+(* ================================================================ policy-key maintenance *)
+(* a stored write leaves exactly one freshly stamped row for its key; every other row is untouched *)
+Theorem write_rows_keys now sel dbk raw t t2 :
+  incl sel t -> write_rows now sel dbk raw t t2 ->
+  (exists r, In r t2 /\ stamped now r
+             /\ match sel with
+                | [] => rkey r = dbk /\ rraw r = raw /\ rowid r = next_rowid t
+                | r0 :: _ => rowid r = rowid r0 /\ rkey r = rkey r0 /\ rraw r = rraw r0
+                end)
+  /\ (forall r, In r t2 -> stamped now r \/ In r t).
+Proof.
+  intros Hi. destruct sel as [|r0 l]; cbn [write_rows].
+  - intros (r & -> & Hid & Hk & Hr & Hs). split.
+    + exists r. rewrite in_app_iff. cbn. tauto.
+    + intros x Hx. apply in_app_or in Hx. destruct Hx as [Hx|[<-|[]]]; auto.
+  - intros (f & -> & Hf). split.
+    + exists (f r0). split.
+      * apply in_map_iff. exists r0. rewrite Z.eqb_refl. split; [reflexivity|]. apply Hi. left. reflexivity.
+      * destruct (Hf r0) as (H1 & H2 & H3 & H4). tauto.
+    + intros x Hx. apply in_map_iff in Hx. destruct Hx as (r & <- & Hr).
+      destruct (rowid r =? rowid r0); [left; apply Hf|right; exact Hr].
+Qed.
+
+Lemma select_key_incl dbk raw t :
+  incl (set_select dbk (b2z raw) t) t /\ incl (add_select dbk (b2z raw) t) t /\ incl (incr_select dbk (b2z raw) t) t.
+Proof. repeat split; intros r H; apply filter_In in H; tauto. Qed.
+
+(* what a get-hit / a live incr does to the policy key of the row *)
+Theorem refresh_keys p now v r :
+  (p = PLRU -> access_time (get_refresh p now r) = now /\ access_count (get_refresh p now r) = access_count r)
+  /\ (p = PLFU -> access_count (get_refresh p now r) = access_count r + 1 /\ access_time (get_refresh p now r) = access_time r)
+  /\ (p = PLRS \/ p = PNone -> get_refresh p now r = r)
+  /\ store_time (get_refresh p now r) = store_time r
+  /\ store_time (incr_refresh p now v r) = now
+  /\ access_time (incr_refresh p now v r) = access_time (get_refresh p now r)
+  /\ access_count (incr_refresh p now v r) = access_count (get_refresh p now r)
+  /\ rowid (get_refresh p now r) = rowid r /\ rowid (incr_refresh p now v r) = rowid r
+  /\ expire_time (get_refresh p now r) = expire_time r /\ expire_time (incr_refresh p now v r) = expire_time r.
+Proof.
+  split; [intros ->; split; reflexivity|]. split; [intros ->; split; reflexivity|].
+  split; [intros [->| ->]; reflexivity|]. repeat split; destruct p; reflexivity.
+Qed.
+
+(* ================================================================ policy none never evicts; get never removes *)
+Theorem op_get_keeps c s k read now s' res :
+  op_get c s k read now = (s', res) ->
+  map rowid (rows s') = map rowid (rows s) /\ (c_policy c = PNone \/ c_policy c = PLRS -> rows s' = rows s).
+Proof.
+  intros H. pose proof (op_get_rows _ _ _ _ _ _ _ H) as R.
+  destruct res; try (rewrite R; split; reflexivity).
+  destruct R as (dbk & raw & r0 & l & _ & _ & R). rewrite R. split.
+  - rewrite map_map. apply map_ext. intros r. destruct (rowid r =? rowid r0); [|reflexivity].
+    destruct (c_policy c); reflexivity.
+  - intros Hp. rewrite <- (map_id (rows s)) at 2. apply map_ext. intros r.
+    destruct (rowid r =? rowid r0); [|reflexivity]. destruct Hp as [-> | ->]; reflexivity.
+Qed.
+
+(* the fuel given to expire()'s page loop suffices *)
+Lemma select_delete_fuel sel next :
+  (forall b t r, In r (sel b t) -> In r t) ->
+  (forall b t, NoDup t -> NoDup (sel b t)) ->
+  forall fuel b s cnt, wf s -> (length (rows s) < fuel)%nat ->
+  exists s' n, select_delete fuel sel next b s cnt = (s', RInt n).
+Proof.
+  intros Hsel Hnd. induction fuel as [|f IH]; intros b s cnt Hw Hf; [lia|]. cbn [select_delete].
+  destruct (sel b (rows s)) as [|x pg'] eqn:Epg; [eauto|]. rewrite <- Epg.
+  set (pg := sel b (rows s)) in *.
+  assert (Hincl : incl pg (rows s)) by (intros r Hr; eapply Hsel; eauto).
+  assert (Hndp : NoDup pg) by (apply Hnd; eapply NoDup_map_NoDup; eauto).
+  assert (Hdel : t_delete (select_delete_delete (map rowid pg) (rows s)) s
+                 = t_delete (fun r => mem_rowid (rowid r) pg) s).
+  { apply t_delete_ext. intros r. rewrite bridge_select_delete_delete. apply existsb_ids. }
+  rewrite Hdel. destruct (delete_sel_facts s pg Hw Hincl Hndp) as (Hw1 & Hin1 & Hc1). cbn zeta in *.
+  apply IH; [apply fs_remove_wf; exact Hw1|]. rewrite fs_remove_rows.
+  assert (0 < length pg)%nat by (rewrite Epg; cbn; lia). lia.
+Qed.
+
+(* cull() always returns a count (never runs out of fuel) *)
+Theorem op_cull_total c s now vols : wf s -> exists s' n, op_cull c s now vols = (s', RInt n).
+Proof.
+  intros Hw. unfold op_cull.
+  destruct (select_delete_fuel (fun b t => expire_select b now expire_page t) (fun r => time_or_zero (expire_time r)))
+    with (fuel := S (length (rows s))) (b := 0) (s := s) (cnt := 0) as (s1 & n1 & E); auto.
+  - intros b t r Hr. rewrite bridge_expire_select in Hr. apply select_shape_incl in Hr. tauto.
+  - intros b t Ht. rewrite bridge_expire_select. apply select_shape_nodup. exact Ht.
+  - fold (op_expire s now) in E. rewrite E.
+    destruct (op_expire_spec s now s1 n1 Hw E) as (Hw1 & _).
+    rewrite bridge_policy_has_cull. destruct (is_pnone (c_policy c)) eqn:Ep; cbn [negb]; [eauto|].
+    apply cull_loop_fuel; auto.
+Qed.
+
+Theorem op_cull_none_never c s now vols s' res r :
+  c_policy c = PNone -> wf s -> op_cull c s now vols = (s', res) -> removed s s' r -> passed now r = true.
+Proof.
+  intros Ep Hw H Hr. destruct (op_cull_total c s now vols Hw) as (s'' & n & E). rewrite E in H. injection H as <- <-.
+  destruct (op_cull_spec c s now vols s'' n Hw E) as (s1 & n1 & _ & Hp & _ & _ & _ & Hnone & _).
+  rewrite (Hnone Ep) in Hr. apply Hp. exact Hr.
+Qed.
+
+(* ================================================================ examples: the hypotheses are satisfiable *)
+Definition ex_row (i st_ at_ ac : Z) (ex : option Z) (sz : Z) : row :=
+  {| rowid := i; rkey := SInt i; rraw := true; store_time := st_; expire_time := ex; access_time := at_;
+     access_count := ac; rtag := SNull; rsize := sz; rmode := 1; rfile := None; rvalue := SInt 0 |}.
+Definition ex_st : st :=
+  {| rows := [ex_row 1 10 50 3 None 6; ex_row 2 20 30 1 None 6; ex_row 3 5 60 2 (Some 40) 6];
+     n_count := 3; n_size := 18; n_hits := 0; n_misses := 0; statistics := false; fs := []; next_file := 0 |}.
+Definition ex_cfg (p : policy) (lim : Z) : cfg :=
+  {| c_policy := p; c_size_limit := 10; c_cull_limit := lim; c_min_file_size := 100;
+     c_codec := {| pkk := fun _ => []; pkv := fun _ => []; unpk := fun _ => None |} |}.
+
+Lemma ex_wf : wf ex_st.
+Proof. unfold wf. cbn. repeat constructor; cbn; intuition lia. Qed.
+
+(* clock 100: row 3 is passed and goes first; with limit left and volume 12 >= 10 one more row goes, chosen by policy *)
+Example ex_cull_lru : map rowid (rows (fst (cull (ex_cfg PLRU 2) 100 0 ex_st))) = [1].
+Proof. vm_compute. reflexivity. Qed.
+Example ex_cull_lrs : map rowid (rows (fst (cull (ex_cfg PLRS 2) 100 0 ex_st))) = [2].
+Proof. vm_compute. reflexivity. Qed.
+Example ex_cull_lfu : map rowid (rows (fst (cull (ex_cfg PLFU 2) 100 0 ex_st))) = [1].
+Proof. vm_compute. reflexivity. Qed.
+Example ex_cull_none : map rowid (rows (fst (cull (ex_cfg PNone 2) 100 0 ex_st))) = [1; 2].
+Proof. vm_compute. reflexivity. Qed.
+Example ex_cull_limit1 : map rowid (rows (fst (cull (ex_cfg PLRU 1) 100 0 ex_st))) = [1; 2].
+Proof. vm_compute. reflexivity. Qed.
+(* clock 0: nothing is passed, volume 18 >= 10: pure policy eviction, a non-passed row is removed *)
+Example ex_removed_not_passed :
+  removed ex_st (fst (cull (ex_cfg PLRU 1) 0 0 ex_st)) (ex_row 2 20 30 1 None 6) /\ passed 0 (ex_row 2 20 30 1 None 6) = false.
+Proof.
+  split; [|reflexivity]. split; [cbn; tauto|]. vm_compute. intros [H|[H|[]]]; discriminate.
+Qed.
+(* cull(): expire() removes row 3, then one page in policy order empties the table; 3 rows removed, 3 returned.
+   With policy none the expired row is still counted (the return-0 defect of earlier trees is fixed). *)
+Example ex_op_cull : op_cull (ex_cfg PLRU 2) ex_st 100 [0; 0; 0] = (set_rows ex_st [] 0 0, RInt 3).
+Proof. vm_compute. reflexivity. Qed.
+Example ex_op_cull_none : snd (op_cull (ex_cfg PNone 2) ex_st 100 []) = RInt 1.
+Proof. vm_compute. reflexivity. Qed.
